@@ -10,6 +10,7 @@ stored a signature manifest of exactly `q` (a successful `PushSignature` for `q`
 written image / legacy artifact manifest with subject `q` and the notation artifact type).
 -/
 import NotationModel.Lemmas.C19
+import NotationModel.Generated.SrcC19
 
 set_option linter.unusedSimpArgs false
 set_option linter.unusedVariables false
@@ -27,67 +28,11 @@ theorem media_types_distinct :
     mtImage ≠ mtArtifact ∧ mtImage ≠ c19MediaTypeImageIndex ∧ mtArtifact ≠ c19MediaTypeImageIndex ∧
     notationType ≠ mtImage ∧ notationType ≠ mtArtifact := by decide
 
-/-- position of a token in a skeleton -/
-def pos (l : List String) (s : String) : Nat := l.findIdx (· == s)
-
-/-- a token that reads content from the target -/
-def isFetch (s : String) : Bool := "call content.FetchAll".toList.isPrefixOf s.toList
-
-/-- one `case` of the switch in `signatureReferrers`: its label; the size cap precedes the only
-fetch; then the subject comparison (nil or not `content.Equal` to the whole descriptor: continue);
-then the artifact type is taken from the stated field -/
-def caseOk (c : List String × List String) (label subjectTest setType : String) : Bool :=
-  c.1 == [label] &&
-  c.2.filter isFetch == ["call content.FetchAll(ctx,target,node)"] &&
-  decide (pos c.2 "if node.Size>maxManifestSizeLimit -> return" < pos c.2 "call content.FetchAll(ctx,target,node)") &&
-  decide (pos c.2 "call content.FetchAll(ctx,target,node)" < pos c.2 subjectTest) &&
-  decide (pos c.2 subjectTest < pos c.2 setType) && decide (pos c.2 setType < c.2.length)
-
-set_option maxRecDepth 100000 in
-/-- `signatureReferrers` has exactly the two manifest cases of the model plus a default that does
-nothing, each case as `scanCase` models it (`atype` = `artifactType` of a legacy artifact manifest,
-`config.mediaType` of an image manifest); the notation type filter follows the switch -/
-theorem referrers_skeleton :
-    c19ListUsesSignatureReferrers = true ∧
-    c19ReferrerSwitchTag = "node.MediaType" ∧
-    c19ReferrerCases.length = 3 ∧
-    c19ReferrerCases.any (fun a => caseOk a "artifactspec.MediaTypeArtifactManifest"
-         "if artifact.Subject==nil||!content.Equal(*artifact.Subject,desc) -> continue"
-         "set node.ArtifactType=artifact.ArtifactType") = true ∧
-    c19ReferrerCases.any (fun b => caseOk b "ocispec.MediaTypeImageManifest"
-         "if image.Subject==nil||!content.Equal(*image.Subject,desc) -> continue"
-         "set node.ArtifactType=image.Config.MediaType") = true ∧
-    c19ReferrerCases.contains ([], []) = true ∧
-    c19ReferrerAfterSwitch.head? = some "if node.ArtifactType==ArtifactTypeNotation {" := by decide
-
-set_option maxRecDepth 100000 in
-/-- `getSignatureBlobDesc`: the media type check and the manifest cap both precede the only fetch
-(of the manifest); the exactly-one-blob check follows it and precedes the return of the blob
-descriptor -/
-theorem manifest_guards_precede_read :
-    let g := c19GetBlobDescSteps
-    g.filter isFetch = ["call content.FetchAll(ctx,fetcher,sigManifestDesc)"] ∧
-    pos g "if sigManifestDesc.MediaType!=artifactspec.MediaTypeArtifactManifest&&sigManifestDesc.MediaType!=ocispec.MediaTypeImageManifest -> return"
-      < pos g "call content.FetchAll(ctx,fetcher,sigManifestDesc)" ∧
-    pos g "if sigManifestDesc.Size>maxManifestSizeLimit -> return" < pos g "call content.FetchAll(ctx,fetcher,sigManifestDesc)" ∧
-    pos g "call content.FetchAll(ctx,fetcher,sigManifestDesc)" < pos g "if len(signatureBlobs)!=1 -> return" ∧
-    pos g "if len(signatureBlobs)!=1 -> return" < pos g "return signatureBlobs[0],nil" ∧
-    pos g "return signatureBlobs[0],nil" < g.length := by decide
-
-set_option maxRecDepth 100000 in
-/-- `FetchSignatureBlob`: `getSignatureBlobDesc`, then the blob cap, then the only fetch (of the blob) -/
-theorem blob_guard_precedes_read :
-    let f := c19FetchSteps
-    f.filter isFetch = ["call content.FetchAll(ctx,fetcher,sigBlobDesc)"] ∧
-    pos f "call c.getSignatureBlobDesc(ctx,desc)" < pos f "if sigBlobDesc.Size>maxBlobSizeLimit -> return" ∧
-    pos f "if sigBlobDesc.Size>maxBlobSizeLimit -> return" < pos f "call content.FetchAll(ctx,fetcher,sigBlobDesc)" ∧
-    pos f "call content.FetchAll(ctx,fetcher,sigBlobDesc)" < f.length := by decide
-
-/-- `PushSignature` pushes the blob, then the manifest -/
-theorem push_skeleton :
-    pos c19PushSteps "call oras.PushBytes(ctx,pusher,mediaType,blob)" <
-      pos c19PushSteps "call c.uploadSignatureManifest(ctx,subject,blobDesc,annotations)" ∧
-    pos c19PushSteps "call c.uploadSignatureManifest(ctx,subject,blobDesc,annotations)" < c19PushSteps.length := by decide
+/-- `ListSignatures` falls back to `signatureReferrers` (the token-based skeleton facts of earlier rounds about
+guard order inside `signatureReferrers`, `getSignatureBlobDesc`, `FetchSignatureBlob` and `PushSignature` are
+superseded by the ties to the translated source at the end of this file, which hold for all inputs and
+survive renamings / mirrored comparisons that the token texts did not) -/
+theorem list_uses_signatureReferrers : c19ListUsesSignatureReferrers = true := by decide
 
 /-! ### the model run is the state machine over the history -/
 
@@ -806,5 +751,679 @@ example : Holds demo2 { obs2 [stepOf [goodSig0], stepOf [goodSig0]] with retaine
 
 /-- and a listing that misses a pushed signature -/
 example : Holds demo2 (obs2 [stepOf [goodSig0], stepOf []]) = false := by decide
+
+/-! ### tie to the translated source (docs/TIE_BRIEF.md) -/
+namespace Tie
+open NotationModel.Src.registry
+
+/-! #### the listing: one decision function, two instantiations -/
+
+/-- what the loop of `signatureReferrers` needs to know about one predecessor -/
+structure NodeView where
+  manifestType : Bool              -- the media type is the artifact manifest or the image manifest type
+  big : Bool                       -- size > maxManifestSizeLimit
+  content : Option (Bool × Bool)   -- none: fetching / decoding failed; some (subject equals the queried
+                                   -- descriptor, artifact type is the notation type)
+
+inductive NodeDec | skip | keep | tooLarge | fail
+  deriving DecidableEq, Repr
+
+/-- the per-node decision. `content` is looked at only for a manifest type within the cap. -/
+def decideNode (v : NodeView) : NodeDec :=
+  if v.manifestType then
+    if v.big then .tooLarge
+    else match v.content with
+      | none => .fail
+      | some (subjOk, typeOk) => if subjOk && typeOk then .keep else .skip
+  else .skip
+
+/-- the listing over any kind of node: the first oversized / unreadable node refuses the whole
+listing, otherwise the kept nodes in order -/
+def listG {α : Type} (view : α → NodeView) : List α → Option (List α)
+  | [] => some []
+  | a :: r =>
+    match decideNode (view a) with
+    | .tooLarge => none
+    | .fail => none
+    | .keep => (listG view r).map (a :: ·)
+    | .skip => listG view r
+
+/-- the model's view of a stored manifest when `q` is listed (content is always readable there) -/
+def modelView (q : Desc) (m : Manifest) : NodeView :=
+  { manifestType := isManifestType m.mt, big := decide (m.size > capM),
+    content := some (m.subject == some q, m.atype == notationType) }
+
+/-- the model's loop is `listG` of the model's view -/
+theorem model_scan_is_listG (q : Desc) : ∀ (ms : List Manifest),
+    (if (scan q ms).err then none else some (scan q ms).kept) = listG (modelView q) ms := by
+  intro ms
+  induction ms with
+  | nil => simp [scan, listG]
+  | cons m r ih =>
+    have hcase : isManifestType m.mt = true →
+        (if (scanCase q m (scan q r)).err then none else some (scanCase q m (scan q r)).kept) = listG (modelView q) (m :: r) := by
+      intro hmt
+      simp only [listG, decideNode, modelView, hmt, if_true, scanCase]
+      by_cases hbig : m.size > capM
+      · simp [hbig]
+      · simp only [hbig, decide_false, Bool.false_eq_true, if_false]
+        by_cases hs : (m.subject == some q) = true
+        · have hs' : (m.subject != some q) = false := by simp [bne, hs]
+          by_cases ht : (m.atype == notationType) = true
+          · simp only [hs', hs, ht, Bool.false_eq_true, if_false, if_true, Bool.and_self, ← ih]
+            by_cases he : (scan q r).err = true <;> simp [he]
+          · simp only [hs', hs, ht, Bool.false_eq_true, if_false, Bool.and_false, Bool.true_and, ← ih]
+        · have hs' : (m.subject != some q) = true := by simp [bne, hs]
+          simp only [hs', hs, if_true, Bool.false_and, Bool.false_eq_true, if_false, ← ih]
+    simp only [scan]
+    by_cases h1 : (m.mt == mtArtifact) = true
+    · simp only [h1, if_true]; exact hcase (by simp [isManifestType, h1])
+    · simp only [h1, if_false]
+      by_cases h2 : (m.mt == mtImage) = true
+      · simp only [h2, if_true]; exact hcase (by simp [isManifestType, h2])
+      · have hmt : isManifestType m.mt = false := by simp [isManifestType, h1, h2]
+        simp only [h2, if_false, listG, decideNode, modelView, hmt, Bool.false_eq_true, ih]
+
+/-- what the oracles tell the translated loop about the content of a predecessor -/
+structure SrcContent where
+  subject : Option ocispec.Descriptor
+  atype : String
+  annos : GoLite.Map String String
+
+def srcFetchErr (w : World) (t : Via) (n : ocispec.Descriptor) : Option GoLite.Err :=
+  if (w.FetchAll t n).2.isSome then (w.FetchAll t n).2
+  else if n.MediaType == artifactspec.MediaTypeArtifactManifest then (w.decodeArtifact (w.FetchAll t n).1 default).2
+  else (w.decodeManifest (w.FetchAll t n).1 default).2
+
+/-- fetch + decode by media type (a fresh decode target every time) -/
+def srcDecode (w : World) (t : Via) (n : ocispec.Descriptor) : Option SrcContent :=
+  if (srcFetchErr w t n).isSome then none
+  else if n.MediaType == artifactspec.MediaTypeArtifactManifest then
+    let d := (w.decodeArtifact (w.FetchAll t n).1 default).1
+    some ⟨d.Subject, d.ArtifactType, d.Annotations⟩
+  else
+    let d := (w.decodeManifest (w.FetchAll t n).1 default).1
+    some ⟨d.Subject, d.Config.MediaType, d.Annotations⟩
+
+/-- the translated loop's view of a predecessor -/
+def srcView (w : World) (t : Via) (desc : ocispec.Descriptor) (n : ocispec.Descriptor) : NodeView :=
+  { manifestType := n.MediaType == artifactspec.MediaTypeArtifactManifest || n.MediaType == ocispec.MediaTypeImageManifest,
+    big := decide (n.Size > maxManifestSizeLimit),
+    content := (srcDecode w t n).map (fun c =>
+      (c.subject.isSome && content.Equal (GoLite.deref c.subject) desc, c.atype == ArtifactTypeNotation)) }
+
+/-- a kept node is appended with artifact type and annotations taken from its content -/
+def srcUpdate (w : World) (t : Via) (n : ocispec.Descriptor) : ocispec.Descriptor :=
+  match srcDecode w t n with
+  | some c => { n with ArtifactType := c.atype, Annotations := c.annos }
+  | none => n
+
+/-- result shape of a listing: refused, or the descriptors in order -/
+def listShape (r : List ocispec.Descriptor × Option GoLite.Err) : Option (List ocispec.Descriptor) :=
+  if r.2.isSome then none else some r.1
+
+abbrev LoopSt := Option (List ocispec.Descriptor × Option GoLite.Err) × List ocispec.Descriptor × Option GoLite.Err
+
+def srcStep (w : World) (t : Via) (desc : ocispec.Descriptor) (acc : List ocispec.Descriptor) (n : ocispec.Descriptor) :
+    Except (Option GoLite.Err × Option GoLite.Err) (List ocispec.Descriptor) :=
+  match decideNode (srcView w t desc n) with
+  | .tooLarge => .error (some (GoLite.errorf ""), none)
+  | .fail => .error (srcFetchErr w t n, srcFetchErr w t n)
+  | .keep => .ok (acc ++ [srcUpdate w t n])
+  | .skip => .ok acc
+
+def absSt (acc : List ocispec.Descriptor) : LoopSt := (none, acc, none)
+def stopSt (acc : List ocispec.Descriptor) (e : Option GoLite.Err × Option GoLite.Err) : LoopSt := (some (default, e.1), acc, e.2)
+
+theorem decideNode_fail (v : NodeView) (h : decideNode v = .fail) : v.content = none := by
+  unfold decideNode at h
+  by_cases h1 : v.manifestType = true
+  · by_cases h2 : v.big = true
+    · simp [h1, h2] at h
+    · cases hc : v.content with
+      | none => rfl
+      | some p =>
+        obtain ⟨a, b⟩ := p
+        simp only [h1, h2, hc, if_true, Bool.false_eq_true, if_false] at h
+        by_cases hab : (a && b) = true <;> simp [hab] at h
+  · simp [h1] at h
+
+theorem srcDecode_none (w : World) (t : Via) (n : ocispec.Descriptor) (h : srcDecode w t n = none) :
+    (srcFetchErr w t n).isSome = true := by
+  unfold srcDecode at h
+  by_cases he : (srcFetchErr w t n).isSome = true
+  · exact he
+  · simp only [he, Bool.false_eq_true, if_false] at h
+    by_cases ha : (n.MediaType == artifactspec.MediaTypeArtifactManifest) = true <;> simp [ha] at h
+
+theorem srcStep_error_isSome (w : World) (t : Via) (desc : ocispec.Descriptor) (acc : List ocispec.Descriptor)
+    (n : ocispec.Descriptor) (e : Option GoLite.Err × Option GoLite.Err) (h : srcStep w t desc acc n = .error e) :
+    e.1.isSome = true := by
+  unfold srcStep at h
+  cases hd : decideNode (srcView w t desc n) with
+  | tooLarge => rw [hd] at h; simp only [Except.error.injEq] at h; rw [← h]; rfl
+  | fail =>
+    rw [hd] at h; simp only [Except.error.injEq] at h; rw [← h]
+    have hc := decideNode_fail _ hd
+    simp only [srcView, Option.map_eq_none_iff] at hc
+    exact srcDecode_none w t n hc
+  | keep => rw [hd] at h; simp at h
+  | skip => rw [hd] at h; simp at h
+
+theorem foldE_listG (w : World) (t : Via) (desc : ocispec.Descriptor) : ∀ (nodes acc : List ocispec.Descriptor),
+    (match GoLite.foldE (srcStep w t desc) nodes acc with
+      | .ok r => some r
+      | .error _ => none) = (listG (srcView w t desc) nodes).map (fun l => acc ++ l.map (srcUpdate w t)) := by
+  intro nodes
+  induction nodes with
+  | nil => intro acc; simp [GoLite.foldE, listG]
+  | cons n r ih =>
+    intro acc
+    simp only [GoLite.foldE, listG, srcStep]
+    cases hd : decideNode (srcView w t desc n) with
+    | tooLarge => simp
+    | fail => simp
+    | keep =>
+      simp only [ih]
+      cases listG (srcView w t desc) r <;> simp
+    | skip => simp only [ih]
+
+/-- TIE (translated source): `signatureReferrers`, translated from registry/repository.go on every run
+(`Generated/SrcC19.lean`), computes for EVERY world (store, decoder) and every queried descriptor the
+generic listing `listG` of its view of the predecessors: refused when `Predecessors` fails or when
+the first node that is not simply skipped / kept is over the manifest cap (decided on the
+descriptor's size alone - `srcView.content` is not consulted) or cannot be fetched / decoded;
+otherwise exactly the nodes whose subject `content.Equal`s the queried descriptor and whose
+artifact type (artifact manifest: `artifactType`, image manifest: `config.mediaType`) is the notation
+type, in the order of `Predecessors`, each with artifact type and annotations from its content.
+`model_scan_is_listG` says the model's `scan` is the same `listG` of the model's view. -/
+theorem source_signatureReferrers_refines_model (w : World) (t : Via) (desc : ocispec.Descriptor) :
+    listShape (signatureReferrers w t desc) =
+      if (w.Predecessors desc).2.isSome then none
+      else (listG (srcView w t desc) (w.Predecessors desc).1).map (fun l => l.map (srcUpdate w t)) := by
+  unfold signatureReferrers
+  generalize hP : w.Predecessors desc = p
+  obtain ⟨nodes, e⟩ := p
+  simp only [Id.run]
+  cases e with
+  | some e0 => simp [listShape, GoLite.idPure]
+  | none =>
+    simp only [Option.isSome_none, Bool.false_eq_true, if_false]
+    rw [GoLite.forIn_eq_foldE' _ (srcStep w t desc) absSt stopSt ?h nodes (none, default, none) []
+      (show ((none, default, none) : LoopSt) = absSt [] from rfl)]
+    case h =>
+      intro a acc
+      simp only [srcStep, decideNode, srcView, srcDecode, srcFetchErr, srcUpdate, absSt, stopSt, World.Unmarshal, Decode.decode]
+      have hneAI : ¬ (artifactspec.MediaTypeArtifactManifest = ocispec.MediaTypeImageManifest) := by decide
+      by_cases hA : (a.MediaType == artifactspec.MediaTypeArtifactManifest) = true
+      · have hI : (a.MediaType == ocispec.MediaTypeImageManifest) = false := by
+          have : a.MediaType = artifactspec.MediaTypeArtifactManifest := by simpa using hA
+          rw [this]; simpa using hneAI
+        by_cases hbig : a.Size > maxManifestSizeLimit
+        · simp [hA, hI, hbig, GoLite.errorf]
+        · by_cases hf : (w.FetchAll t a).2.isSome = true
+          · simp [hA, hI, hbig, hf]
+          · by_cases hd : (w.decodeArtifact (w.FetchAll t a).1 default).2.isSome = true
+            · simp [hA, hI, hbig, hf, hd]
+            · have hdn : (w.decodeArtifact (w.FetchAll t a).1 default).2 = none := by simpa using hd
+              by_cases hs : ((w.decodeArtifact (w.FetchAll t a).1 default).1.Subject.isNone ||
+                  !content.Equal (GoLite.deref (w.decodeArtifact (w.FetchAll t a).1 default).1.Subject) desc) = true
+              · have hs' : ((w.decodeArtifact (w.FetchAll t a).1 default).1.Subject.isSome &&
+                    content.Equal (GoLite.deref (w.decodeArtifact (w.FetchAll t a).1 default).1.Subject) desc) = false := by
+                  cases hsub : (w.decodeArtifact (w.FetchAll t a).1 default).1.Subject <;> simp_all
+                simp [hA, hI, hbig, hf, hd, hdn, hs, hs']
+              · have hs' : ((w.decodeArtifact (w.FetchAll t a).1 default).1.Subject.isSome &&
+                    content.Equal (GoLite.deref (w.decodeArtifact (w.FetchAll t a).1 default).1.Subject) desc) = true := by
+                  cases hsub : (w.decodeArtifact (w.FetchAll t a).1 default).1.Subject <;> simp_all
+                by_cases hty : (w.decodeArtifact (w.FetchAll t a).1 default).1.ArtifactType = ArtifactTypeNotation
+                · simp [hA, hI, hbig, hf, hd, hdn, hs, hs', hty]
+                · have hty' : ¬ (ArtifactTypeNotation = (w.decodeArtifact (w.FetchAll t a).1 default).1.ArtifactType) := fun h => hty h.symm
+                  simp [hA, hI, hbig, hf, hd, hdn, hs, hs', hty, hty']
+      · by_cases hI : (a.MediaType == ocispec.MediaTypeImageManifest) = true
+        · by_cases hbig : a.Size > maxManifestSizeLimit
+          · simp [hA, hI, hbig, GoLite.errorf]
+          · by_cases hf : (w.FetchAll t a).2.isSome = true
+            · simp [hA, hI, hbig, hf]
+            · by_cases hd : (w.decodeManifest (w.FetchAll t a).1 default).2.isSome = true
+              · simp [hA, hI, hbig, hf, hd]
+              · have hdn : (w.decodeManifest (w.FetchAll t a).1 default).2 = none := by simpa using hd
+                by_cases hs : ((w.decodeManifest (w.FetchAll t a).1 default).1.Subject.isNone ||
+                    !content.Equal (GoLite.deref (w.decodeManifest (w.FetchAll t a).1 default).1.Subject) desc) = true
+                · have hs' : ((w.decodeManifest (w.FetchAll t a).1 default).1.Subject.isSome &&
+                      content.Equal (GoLite.deref (w.decodeManifest (w.FetchAll t a).1 default).1.Subject) desc) = false := by
+                    cases hsub : (w.decodeManifest (w.FetchAll t a).1 default).1.Subject <;> simp_all
+                  simp [hA, hI, hbig, hf, hd, hdn, hs, hs']
+                · have hs' : ((w.decodeManifest (w.FetchAll t a).1 default).1.Subject.isSome &&
+                      content.Equal (GoLite.deref (w.decodeManifest (w.FetchAll t a).1 default).1.Subject) desc) = true := by
+                    cases hsub : (w.decodeManifest (w.FetchAll t a).1 default).1.Subject <;> simp_all
+                  by_cases hty : (w.decodeManifest (w.FetchAll t a).1 default).1.Config.MediaType = ArtifactTypeNotation
+                  · simp [hA, hI, hbig, hf, hd, hdn, hs, hs', hty]
+                  · have hty' : ¬ (ArtifactTypeNotation = (w.decodeManifest (w.FetchAll t a).1 default).1.Config.MediaType) := fun h => hty h.symm
+                    simp [hA, hI, hbig, hf, hd, hdn, hs, hs', hty, hty']
+        · simp [hA, hI]
+    have hfold := foldE_listG w t desc nodes []
+    cases hr : GoLite.foldE (srcStep w t desc) nodes [] with
+    | ok r =>
+      rw [hr] at hfold
+      simp only [List.nil_append] at hfold
+      simp only [absSt, listShape, GoLite.idPure, GoLite.idBind, ← hfold]
+      simp
+    | error p =>
+      obtain ⟨acc', e⟩ := p
+      rw [hr] at hfold
+      have hsome : e.1.isSome = true := by
+        -- the error came out of some step
+        have : ∀ (l acc : List ocispec.Descriptor) acc' e, GoLite.foldE (srcStep w t desc) l acc = .error (acc', e) → e.1.isSome = true := by
+          intro l
+          induction l with
+          | nil => intro acc acc' e h; simp [GoLite.foldE] at h
+          | cons x l ih =>
+            intro acc acc' e h
+            simp only [GoLite.foldE] at h
+            cases hx : srcStep w t desc acc x with
+            | ok t' => rw [hx] at h; exact ih t' acc' e h
+            | error e' =>
+              rw [hx] at h
+              simp only [Except.error.injEq, Prod.mk.injEq] at h
+              rw [← h.2]
+              exact srcStep_error_isSome w t desc acc x e' hx
+        exact this nodes [] acc' e hr
+      simp only [List.nil_append] at hfold
+      simp only [stopSt, listShape, GoLite.idPure, GoLite.idBind, ← hfold]
+      simp [hsome]
+
+/-! the two instantiations side by side -/
+
+theorem listG_congr {α : Type} (v1 v2 : α → NodeView) : ∀ (l : List α), (∀ a ∈ l, decideNode (v1 a) = decideNode (v2 a)) →
+    listG v1 l = listG v2 l := by
+  intro l
+  induction l with
+  | nil => intro _; rfl
+  | cons a r ih =>
+    intro h
+    simp only [listG, h a List.mem_cons_self, ih (fun b hb => h b (List.mem_cons_of_mem _ hb))]
+
+theorem listG_map {α β : Type} (f : β → α) (v : α → NodeView) : ∀ (zs : List β),
+    listG v (zs.map f) = (listG (fun z => v (f z)) zs).map (fun l => l.map f) := by
+  intro zs
+  induction zs with
+  | nil => simp [listG]
+  | cons z r ih =>
+    simp only [List.map_cons, listG, ih]
+    cases decideNode (v (f z)) <;> simp
+    cases listG (fun z => v (f z)) r <;> simp
+
+/-- TIE, both sides together: pair every predecessor the store returns with the stored manifest it
+stands for. If the world shows of each predecessor what the model knows of its manifest (same
+view: manifest type, over the cap, subject equals the query, notation type), then the translated
+`signatureReferrers` and the model's `scan` refuse together and otherwise keep the SAME positions in
+the SAME order: there is one list `kept` of pairs such that the source returns the descriptors of
+`kept` (with artifact type / annotations filled in) and the model keeps the manifests of `kept`. -/
+theorem source_lists_exactly_what_model_lists (w : World) (t : Via) (desc : ocispec.Descriptor) (q : Desc)
+    (zs : List (ocispec.Descriptor × Manifest)) (hP : w.Predecessors desc = (zs.map (·.1), none))
+    (hv : ∀ z ∈ zs, srcView w t desc z.1 = modelView q z.2) :
+    ∃ kept : Option (List (ocispec.Descriptor × Manifest)),
+      listShape (signatureReferrers w t desc) = kept.map (fun l => l.map (fun z => srcUpdate w t z.1)) ∧
+      (if (scan q (zs.map (·.2))).err then none else some (scan q (zs.map (·.2))).kept) = kept.map (fun l => l.map (·.2)) := by
+  refine ⟨listG (fun z => srcView w t desc z.1) zs, ?_, ?_⟩
+  · rw [source_signatureReferrers_refines_model, hP]
+    simp only [Option.isSome_none, Bool.false_eq_true, if_false, listG_map]
+    cases listG (fun z => srcView w t desc z.1) zs <;> simp
+  · rw [model_scan_is_listG, listG_map]
+    rw [listG_congr (fun z => srcView w t desc z.1) (fun z => modelView q z.2) zs (fun z hz => by rw [hv z hz])]
+
+/-- refused BEFORE the content is read: for a node that is not of a manifest type, or is over the
+cap, the decision does not depend on what fetching / decoding would give; and the two guards of
+the translated loop's view do not mention the oracles at all. -/
+theorem oversized_decided_before_fetch (v : NodeView) (c c' : Option (Bool × Bool))
+    (h : v.manifestType = false ∨ v.big = true) :
+    decideNode { v with content := c } = decideNode { v with content := c' } := by
+  unfold decideNode
+  rcases h with h | h
+  · simp [h]
+  · by_cases hm : v.manifestType = true <;> simp [hm, h]
+
+theorem srcView_guards_oracle_free (w w' : World) (t t' : Via) (desc n : ocispec.Descriptor) :
+    (srcView w t desc n).manifestType = (srcView w' t' desc n).manifestType ∧
+    (srcView w t desc n).big = (srcView w' t' desc n).big := ⟨rfl, rfl⟩
+
+/-- non-vacuity: the translated loop on a world with three predecessors - a notation image manifest
+of the subject, one of another subject, one of another type -/
+def demoDesc : ocispec.Descriptor := { MediaType := ocispec.MediaTypeImageManifest, Digest := "sha256:s", Size := 421 }
+def demoNode (k : Nat) : ocispec.Descriptor := { MediaType := ocispec.MediaTypeImageManifest, Digest := s!"sha256:n{k}", Size := 600 + k }
+def demoWorld : World :=
+  { (default : World) with
+    Predecessors := fun _ => ([demoNode 0, demoNode 1, demoNode 2], none),
+    FetchAll := fun _ n => (⟨(n.Size - 600).toNat⟩, none),
+    decodeManifest := fun b _ =>
+      ({ MediaType := ocispec.MediaTypeImageManifest, ArtifactType := "",
+         Config := { MediaType := if b.id == 2 then "application/vnd.example" else ArtifactTypeNotation, Digest := "sha256:c", Size := 2 },
+         Layers := [], Subject := some (if b.id == 1 then { demoDesc with Size := 422 } else demoDesc),
+         Annotations := [("k", "v")] }, none) }
+
+example : (signatureReferrers demoWorld .direct demoDesc).1.map (·.Digest) = ["sha256:n0"] ∧
+    (signatureReferrers demoWorld .direct demoDesc).2 = none := by decide
+
+/-- TIE (translated source): `ListSignatures` on an OCI layout (the target is no `registry.ReferrerLister`) hands
+exactly the result of `signatureReferrers` for the client's own target to the callback, once, and returns the
+callback's answer - or an error when the listing was refused. -/
+theorem source_ListSignatures_refines_model (w : World) (c : repositoryClient) (desc : ocispec.Descriptor)
+    (fn : List ocispec.Descriptor → Option GoLite.Err) (hl : w.isRepository = false) :
+    ListSignatures w c desc fn =
+      if (signatureReferrers w c.GraphTarget desc).2.isSome then some (GoLite.wrapf "" (signatureReferrers w c.GraphTarget desc).2)
+      else fn (signatureReferrers w c.GraphTarget desc).1 := by
+  unfold ListSignatures
+  generalize signatureReferrers w c.GraphTarget desc = r
+  obtain ⟨l, e⟩ := r
+  simp only [Id.run, World.asReferrerLister, hl, GoLite.wrapf]
+  (repeat' split) <;> simp_all [GoLite.idPure, GoLite.idBind, pure, bind]
+
+/-! #### the fetch: one decision function, two instantiations -/
+
+/-- outcome of the decisions of `FetchSignatureBlob`: refused (was the manifest fetched? the blob?)
+or the single layer whose blob is returned -/
+inductive FetchDec (α : Type) | refuse (manifestRead blobRead : Bool) | ok (l : α)
+  deriving DecidableEq, Repr
+
+/-- `mtOk`: the descriptor's media type is one of the two manifest types; `tooBig`: its size is over the
+manifest cap; `manifest`: the layers / blobs that fetching + decoding gives (none: failed);
+`overCap l`: the layer's declared size is over the blob cap; `blobOk l`: fetching the blob works.
+`blobOk` is consulted only for a manifest with exactly one layer within the cap. -/
+def decideFetch {α : Type} (mtOk tooBig : Bool) (manifest : Option (List α)) (overCap : α → Bool) (blobOk : α → Bool) :
+    FetchDec α :=
+  if !mtOk then .refuse false false
+  else if tooBig then .refuse false false
+  else match manifest with
+    | none => .refuse true false
+    | some [l] => if overCap l then .refuse true false else if blobOk l then .ok l else .refuse true true
+    | some _ => .refuse true false
+
+def renderModel : FetchDec Layer → FetchObs
+  | .refuse a b => refuse a b
+  | .ok l => { ok := true, blob := l.blob, mt := l.mt, manifestRead := true, blobRead := true }
+
+/-- the model's `fetchSig` is `decideFetch` of what the state answers -/
+theorem model_fetchSig_is_decideFetch (st : State) (d : Desc) :
+    fetchSig st d = renderModel (decideFetch (isManifestType d.mt) (decide (d.size > capM))
+      (((st.manifests.find? (·.id == d.dig)).filter (fun m => m.size == d.size)).map
+        (fun m => if d.mt == m.mt then m.layers else []))
+      (fun l => decide (l.size > capB)) (fun l => blobSize st l.blob == some l.size)) := by
+  unfold fetchSig decideFetch
+  by_cases hmt : isManifestType d.mt = true
+  · have h1 : (d.mt != mtArtifact && d.mt != mtImage) = false := by
+      simp only [isManifestType, Bool.or_eq_true] at hmt
+      rcases hmt with h | h <;> simp [bne, h]
+    simp only [h1, hmt, Bool.false_eq_true, if_false, Bool.not_true]
+    by_cases hbig : d.size > capM
+    · simp [hbig, renderModel]
+    · simp only [hbig, decide_false, Bool.false_eq_true, if_false]
+      cases hf : st.manifests.find? (fun x => x.id == d.dig) with
+      | none => simp [renderModel]
+      | some m =>
+        by_cases hs : m.size = d.size
+        · simp only [hs, bne_self_eq_false, Bool.false_eq_true, if_false, Option.filter, beq_self_eq_true, if_true,
+            Option.map_some, fetchLayers]
+          cases hL : (if d.mt == m.mt then m.layers else []) with
+          | nil => simp [renderModel]
+          | cons l r =>
+            cases r with
+            | cons l2 r2 => simp [renderModel]
+            | nil =>
+              by_cases hb : l.size > capB
+              · simp [hb, renderModel]
+              · by_cases hbl : (blobSize st l.blob == some l.size) = true
+                · simp [hb, hbl, renderModel]
+                · simp [hb, hbl, renderModel]
+        · have hs' : (m.size != d.size) = true := by simp [bne, hs]
+          have hs'' : (m.size == d.size) = false := by simp [hs]
+          simp [hs', hs'', Option.filter, renderModel]
+  · have hmt' : isManifestType d.mt = false := by simpa using hmt
+    have h1 : (d.mt != mtArtifact && d.mt != mtImage) = true := by
+      simp only [isManifestType, Bool.or_eq_false_iff] at hmt'
+      simp [bne, hmt'.1, hmt'.2]
+    simp [h1, hmt', renderModel]
+
+/-- what fetching + decoding the manifest gives the translated code: its layers (image manifest)
+or blobs (artifact manifest), by the DESCRIPTOR's media type; a fresh decode target -/
+def srcManifest (w : World) (v : Via) (d : ocispec.Descriptor) : Option (List ocispec.Descriptor) :=
+  if (w.FetchAll v d).2.isSome then none
+  else if d.MediaType == ocispec.MediaTypeImageManifest then
+    (if (w.decodeManifest (w.FetchAll v d).1 default).2.isSome then none else some (w.decodeManifest (w.FetchAll v d).1 default).1.Layers)
+  else
+    (if (w.decodeArtifact (w.FetchAll v d).1 default).2.isSome then none else some (w.decodeArtifact (w.FetchAll v d).1 default).1.Blobs)
+
+def srcFetchDec (w : World) (d : ocispec.Descriptor) : FetchDec ocispec.Descriptor :=
+  decideFetch (d.MediaType == artifactspec.MediaTypeArtifactManifest || d.MediaType == ocispec.MediaTypeImageManifest)
+    (decide (d.Size > maxManifestSizeLimit)) (srcManifest w .direct d)
+    (fun l => decide (l.Size > maxBlobSizeLimit)) (fun l => (w.FetchAll .direct l).2.isNone)
+
+/-- result shape: the bytes (if any), the returned descriptor, error yes/no -/
+def fetchShape (r : Option Bytes × ocispec.Descriptor × Option GoLite.Err) : Option Bytes × ocispec.Descriptor × Bool :=
+  (r.1, r.2.1, r.2.2.isSome)
+
+def renderSrc (w : World) : FetchDec ocispec.Descriptor → Option Bytes × ocispec.Descriptor × Bool
+  | .refuse _ _ => (none, default, true)
+  | .ok l => (some (w.FetchAll .direct l).1, l, false)
+
+/-- TIE (translated source): `getSignatureBlobDesc` decides, for every world on an OCI layout (the target is
+not a remote `registry.Repository`), exactly the manifest part of `decideFetch`: media type, manifest cap
+(both before the fetch), then exactly one layer / blob, which it returns. -/
+theorem source_getSignatureBlobDesc_refines_model (w : World) (c : repositoryClient) (d : ocispec.Descriptor)
+    (hl : w.isRepository = false) (hc : c.GraphTarget = .direct) :
+    ((getSignatureBlobDesc w c d).2.isSome, (getSignatureBlobDesc w c d).1) =
+      match decideFetch (d.MediaType == artifactspec.MediaTypeArtifactManifest || d.MediaType == ocispec.MediaTypeImageManifest)
+          (decide (d.Size > maxManifestSizeLimit)) (srcManifest w .direct d) (fun _ => false) (fun _ => true) with
+      | .ok l => (false, l)
+      | .refuse _ _ => (true, default) := by
+  unfold getSignatureBlobDesc decideFetch srcManifest
+  simp only [Id.run, World.asRepository, hl, hc, World.Unmarshal, Decode.decode, RemoteRepo.Manifests]
+  have hne : ¬ (ocispec.MediaTypeImageManifest = artifactspec.MediaTypeArtifactManifest) := by decide
+  by_cases hI : d.MediaType = ocispec.MediaTypeImageManifest
+  · by_cases hbig : d.Size > maxManifestSizeLimit
+    · simp [hI, hne, hbig, GoLite.idPure]
+    · by_cases hf : (w.FetchAll .direct d).2.isSome = true
+      · simp [hI, hne, hbig, hf, GoLite.idPure]
+      · by_cases hd : (w.decodeManifest (w.FetchAll .direct d).1 default).2.isSome = true
+        · simp [hI, hne, hbig, hf, hd, GoLite.idPure]
+        · cases hL : (w.decodeManifest (w.FetchAll .direct d).1 default).1.Layers with
+          | nil => simp [hI, hne, hbig, hf, hd, hL, GoLite.idPure, GoLite.len]
+          | cons l r =>
+            cases r with
+            | nil => simp [hI, hne, hbig, hf, hd, hL, GoLite.idPure, GoLite.len, GoLite.idx]
+            | cons l2 r2 =>
+              have : ¬ ((((r2.length : Int) + 1) + 1) = 1) := by omega
+              have this' : ¬ (1 = (((r2.length : Int) + 1) + 1)) := by omega
+              simp [hI, hne, hbig, hf, hd, hL, GoLite.idPure, GoLite.len, this, this']
+  · by_cases hA : d.MediaType = artifactspec.MediaTypeArtifactManifest
+    · have hne' : ¬ (artifactspec.MediaTypeArtifactManifest = ocispec.MediaTypeImageManifest) := fun h => hne h.symm
+      by_cases hbig : d.Size > maxManifestSizeLimit
+      · simp [hA, hne', hbig, GoLite.idPure]
+      · by_cases hf : (w.FetchAll .direct d).2.isSome = true
+        · simp [hA, hne', hbig, hf, GoLite.idPure]
+        · by_cases hd : (w.decodeArtifact (w.FetchAll .direct d).1 default).2.isSome = true
+          · simp [hA, hne', hbig, hf, hd, GoLite.idPure]
+          · cases hL : (w.decodeArtifact (w.FetchAll .direct d).1 default).1.Blobs with
+            | nil => simp [hA, hne', hbig, hf, hd, hL, GoLite.idPure, GoLite.len]
+            | cons l r =>
+              cases r with
+              | nil => simp [hA, hne', hbig, hf, hd, hL, GoLite.idPure, GoLite.len, GoLite.idx]
+              | cons l2 r2 =>
+                have : ¬ ((((r2.length : Int) + 1) + 1) = 1) := by omega
+                have this' : ¬ (1 = (((r2.length : Int) + 1) + 1)) := by omega
+                simp [hA, hne', hbig, hf, hd, hL, GoLite.idPure, GoLite.len, this, this']
+    · by_cases hbig : d.Size > maxManifestSizeLimit <;> simp [hI, hA, hbig, GoLite.idPure]
+
+theorem decideFetch_split {α : Type} (a b : Bool) (m : Option (List α)) (oc bo : α → Bool) :
+    decideFetch a b m oc bo =
+      match decideFetch a b m (fun _ => false) (fun _ => true) with
+      | .refuse x y => .refuse x y
+      | .ok l => if oc l then .refuse true false else if bo l then .ok l else .refuse true true := by
+  unfold decideFetch
+  by_cases ha : a = true <;> by_cases hb : b = true <;> simp [ha, hb]
+  cases m with
+  | none => rfl
+  | some ls =>
+    cases ls with
+    | nil => rfl
+    | cons l r => cases r <;> simp
+
+/-- TIE (translated source): `FetchSignatureBlob` on an OCI layout computes, for EVERY world, the decision
+`decideFetch` of what the world answers - the same function the model's `fetchSig` computes of what
+its state answers (`model_fetchSig_is_decideFetch`): refused unless the descriptor has a manifest media
+type within the manifest cap, the manifest can be fetched and decoded, it has exactly one layer /
+blob, that layer's declared size is within the blob cap and the blob can be fetched; then the bytes
+fetched for exactly that layer descriptor and that descriptor are returned. -/
+theorem source_FetchSignatureBlob_refines_model (w : World) (c : repositoryClient) (d : ocispec.Descriptor)
+    (hl : w.isRepository = false) (hc : c.GraphTarget = .direct) :
+    fetchShape (FetchSignatureBlob w c d) = renderSrc w (srcFetchDec w d) := by
+  have hg := source_getSignatureBlobDesc_refines_model w c d hl hc
+  unfold FetchSignatureBlob srcFetchDec
+  rw [decideFetch_split]
+  generalize getSignatureBlobDesc w c d = g at hg ⊢
+  obtain ⟨gd, ge⟩ := g
+  simp only [Id.run, World.asRepository, hl, hc, RemoteRepo.Blobs]
+  cases hD : decideFetch (d.MediaType == artifactspec.MediaTypeArtifactManifest || d.MediaType == ocispec.MediaTypeImageManifest)
+      (decide (d.Size > maxManifestSizeLimit)) (srcManifest w .direct d) (fun _ => false) (fun _ => true) with
+  | refuse x y =>
+    rw [hD] at hg
+    simp only [Prod.mk.injEq] at hg
+    simp [hg.1, fetchShape, renderSrc, GoLite.idPure]
+  | ok l =>
+    rw [hD] at hg
+    simp only [Prod.mk.injEq] at hg
+    obtain ⟨h1, h2⟩ := hg
+    subst h2
+    have hne : ge.isSome = false := h1
+    by_cases hb : gd.Size > maxBlobSizeLimit
+    · simp [hne, hb, fetchShape, renderSrc, GoLite.idPure]
+    · by_cases hf : (w.FetchAll .direct gd).2.isSome = true
+      · have hf'' : ¬ ((w.FetchAll .direct gd).2 = none) := by
+          intro h; rw [h] at hf; simp at hf
+        simp [hne, hb, hf, hf'', fetchShape, renderSrc, GoLite.idPure]
+      · have hf' : (w.FetchAll .direct gd).2 = none := by simpa using hf
+        simp [hne, hb, hf, hf', fetchShape, renderSrc, GoLite.idPure]
+
+/-- refused BEFORE the blob is read: a manifest that does not carry exactly one layer, or whose layer is
+declared over the blob cap, is refused whatever fetching the blob would give -/
+theorem hostile_decided_before_blob_fetch {α : Type} (a b : Bool) (ls : List α) (oc bo bo' : α → Bool)
+    (h : ls.length ≠ 1 ∨ ls.any oc = true) :
+    decideFetch a b (some ls) oc bo = decideFetch a b (some ls) oc bo' ∧
+    (a = true → b = false → decideFetch a b (some ls) oc bo = .refuse true false) := by
+  unfold decideFetch
+  by_cases ha : a = true <;> by_cases hb : b = true <;> simp [ha, hb]
+  cases ls with
+  | nil => simp
+  | cons l r =>
+    cases r with
+    | cons l2 r2 => simp
+    | nil =>
+      rcases h with h | h
+      · simp at h
+      · have : oc l = true := by simpa using h
+        simp [this]
+
+/-- ... and a descriptor of another media type or over the manifest cap before anything is read -/
+theorem descriptor_decided_before_any_fetch {α : Type} (a b : Bool) (m m' : Option (List α)) (oc bo bo' : α → Bool)
+    (h : a = false ∨ b = true) :
+    decideFetch a b m oc bo = .refuse false false ∧ decideFetch a b m' oc bo' = .refuse false false := by
+  unfold decideFetch
+  rcases h with h | h
+  · simp [h]
+  · by_cases ha : a = true <;> simp [ha, h]
+
+/-- non-vacuity: fetching through the translated code -/
+def fetchWorld (layers : List ocispec.Descriptor) : World :=
+  { (default : World) with
+    FetchAll := fun _ n => (⟨n.Size.toNat⟩, if n.Digest == "sha256:missing" then some ⟨"notfound"⟩ else none),
+    decodeManifest := fun _ _ => ({ (default : ocispec.Manifest) with Layers := layers }, none) }
+def envDesc (size : Int) : ocispec.Descriptor := { MediaType := "application/jose+json", Digest := "sha256:e", Size := size }
+
+example : fetchShape (FetchSignatureBlob (fetchWorld [envDesc 100]) {} demoDesc) = (some ⟨100⟩, envDesc 100, false) := by decide
+example : fetchShape (FetchSignatureBlob (fetchWorld [envDesc 100, envDesc 7]) {} demoDesc) = (none, default, true) := by decide
+example : fetchShape (FetchSignatureBlob (fetchWorld [envDesc (maxBlobSizeLimit + 1)]) {} demoDesc) = (none, default, true) := by decide
+example : fetchShape (FetchSignatureBlob (fetchWorld [envDesc 100]) {} { demoDesc with Size := maxManifestSizeLimit + 1 }) =
+    (none, default, true) := by decide
+
+/-! #### the push: what goes into the packed manifest -/
+
+/-- the config descriptor every signature manifest gets: its media type is the model's `notationType`
+(what `signatureReferrers` later reads as the artifact type of an image manifest) -/
+theorem config_is_notation_type : notationEmptyConfigDesc.MediaType = notationType := by decide
+
+/-- TIE (translated source): `pushNotationManifestConfig` succeeds - with exactly `notationEmptyConfigDesc` -
+iff the existence check works and the config is there, or can be pushed, or the push says
+"already exists" (a concurrent first push won the race; the model's concurrency stage relies on it). -/
+theorem source_pushNotationManifestConfig_refines_model (w : World) (p : Via) :
+    pushNotationManifestConfig w p =
+      if (w.Exists notationEmptyConfigDesc).2.isSome then (default, some (GoLite.wrapf "" (w.Exists notationEmptyConfigDesc).2))
+      else if (w.Exists notationEmptyConfigDesc).1 then (notationEmptyConfigDesc, none)
+      else if (w.Push notationEmptyConfigDesc notationEmptyConfigData).isSome &&
+              !(w.Push notationEmptyConfigDesc notationEmptyConfigData == some errdef.ErrAlreadyExists) then
+        (default, some (GoLite.wrapf "" (w.Push notationEmptyConfigDesc notationEmptyConfigData)))
+      else (notationEmptyConfigDesc, none) := by
+  generalize hex : w.Exists notationEmptyConfigDesc = ex
+  generalize hpu : w.Push notationEmptyConfigDesc notationEmptyConfigData = pu
+  unfold pushNotationManifestConfig
+  obtain ⟨x, xe⟩ := ex
+  simp only [Id.run, GoLite.errIs, GoLite.wrapf, id, hex, hpu]
+  cases xe with
+  | some e0 => simp [GoLite.idPure]
+  | none =>
+    cases x with
+    | true => simp [GoLite.idPure]
+    | false =>
+      cases pu with
+      | none => simp [GoLite.idPure]
+      | some e1 =>
+        by_cases ha : e1 = errdef.ErrAlreadyExists
+        · simp [ha, GoLite.idPure]
+        · have ha' : ¬ (errdef.ErrAlreadyExists = e1) := fun h => ha h.symm
+          simp [ha, ha', GoLite.idPure]
+
+/-- what the model stores for a push (`mkManifest`, kind push), as pack options -/
+def modelPackOptions (subject blobDesc : ocispec.Descriptor) (annotations : GoLite.Map String String) : oras.PackManifestOptions :=
+  { Subject := some subject, ManifestAnnotations := annotations, Layers := [blobDesc], ConfigDescriptor := some notationEmptyConfigDesc }
+
+/-- TIE (translated source): `uploadSignatureManifest` packs an OCI 1.1 manifest without an `artifactType`
+whose subject is the given subject, whose only layer is the given blob descriptor, whose annotations are the
+given ones and whose config is the notation config - what the model's `mkManifest` stores for a push
+(`oras.PackManifest` adds `created`, the model's `ensureCreated`) - or fails because the config could not be pushed. -/
+theorem source_uploadSignatureManifest_refines_model (w : World) (c : repositoryClient) (subject blobDesc : ocispec.Descriptor)
+    (annotations : GoLite.Map String String) :
+    uploadSignatureManifest w c subject blobDesc annotations =
+      if (pushNotationManifestConfig w c.GraphTarget).2.isSome then
+        (default, some (GoLite.wrapf "" (pushNotationManifestConfig w c.GraphTarget).2))
+      else w.PackManifest c.GraphTarget oras.PackManifestVersion1_1 ""
+        { modelPackOptions subject blobDesc annotations with ConfigDescriptor := some (pushNotationManifestConfig w c.GraphTarget).1 } := by
+  unfold uploadSignatureManifest
+  generalize pushNotationManifestConfig w c.GraphTarget = r
+  obtain ⟨cd, ce⟩ := r
+  simp only [Id.run, GoLite.wrapf, modelPackOptions]
+  (repeat' split) <;> simp_all [GoLite.idPure, GoLite.idBind, pure, bind]
+
+/-- TIE (translated source): `PushSignature` on an OCI layout pushes the envelope first and gives up when that fails
+(the model's "already exists" for known bytes: nothing else changes); otherwise it uploads a manifest for exactly
+the descriptor `oras.PushBytes` returned, the given subject and annotations, and returns both descriptors. -/
+theorem source_PushSignature_refines_model (w : World) (c : repositoryClient) (mediaType : String) (blob : Bytes)
+    (subject : ocispec.Descriptor) (annotations : GoLite.Map String String) (hl : w.isRepository = false) :
+    PushSignature w c mediaType blob subject annotations =
+      let b := w.PushBytes c.GraphTarget mediaType blob
+      if b.2.isSome then (default, default, b.2)
+      else
+        let m := uploadSignatureManifest w c subject b.1 annotations
+        if m.2.isSome then (default, default, m.2) else (b.1, m.1, none) := by
+  unfold PushSignature
+  generalize hb : w.PushBytes c.GraphTarget mediaType blob = b
+  simp only [Id.run, World.asRepository, hl, hb]
+  obtain ⟨bd, be⟩ := b
+  by_cases h1 : be.isSome = true
+  · simp [h1, hb, GoLite.idPure]
+  · generalize uploadSignatureManifest w c subject bd annotations = m
+    obtain ⟨md, me⟩ := m
+    cases me with
+    | some e2 => simp [h1, hb, GoLite.idPure]
+    | none => simp [h1, hb, GoLite.idPure]
+
+end Tie
 
 end NotationModel.C19
